@@ -44,6 +44,10 @@ type pmCase struct {
 	// loader use larger entries ("so that in future new fields may be added to it"); the extra
 	// bytes are filled with a pattern.
 	EntrySize uint32 `json:"entrysize,omitempty"`
+	// MapFail (C02): the k-th call of the map seam during the hand-over fails (after it has taken
+	// its page-table frames, as vmm.Map can): the hand-over reports the error, and boot goes on
+	// making early allocations
+	MapFail int `json:"mapfail,omitempty"`
 }
 
 // whole returns the first and last whole frame of a region.
@@ -127,6 +131,7 @@ type pmEnv struct {
 	mapped    [][]uint64
 	stray     []uint64
 	guards    []*vlib.Guarded
+	mapCalls  int
 }
 
 // mappingVerdict checks "maps exactly the pages needed to cover the requested
@@ -165,6 +170,8 @@ func (env *pmEnv) mappingVerdict() string {
 type pmLogSink struct{ env *pmEnv }
 
 func (s pmLogSink) Write(p []byte) (int, error) { s.env.log.Write(p); return len(p), nil }
+
+var pmErrMapFail = &kernel.Error{Module: "verif", Message: "injected failure of the map seam"}
 
 var pmErrNoVirt = &kernel.Error{Module: "verif", Message: "out of memory (harness: virtual region too large)"}
 
@@ -217,6 +224,7 @@ func pmSetup(c pmCase) *pmEnv {
 		}
 		env.mapped[in] = append(env.mapped[in], uint64(pg))
 		env.early = append(env.early, uint64(f))
+		env.mapCalls++
 		// the real vmm.Map allocates frames for missing page-table levels from the same
 		// (early) allocator: simulate that on the first call
 		for ; tablesLeft > 0; tablesLeft-- {
@@ -225,6 +233,9 @@ func pmSetup(c pmCase) *pmEnv {
 				return err
 			}
 			env.early = append(env.early, uint64(tf))
+		}
+		if c.MapFail != 0 && env.mapCalls == c.MapFail {
+			return pmErrMapFail
 		}
 		return nil
 	}
